@@ -21,7 +21,7 @@ CONE = {
     "C02": [("vocab", 40), ("tok_roundtrip", 250), ("tok_stream", 250), ("util", 60)],
     "C03": [("tok_stateful", 400)],
     "C04": [("history", 350), ("scale_down", 150), ("to_abs", 200), ("to_rel", 200), ("rel_abs_rel", 200), ("getters", 120)],
-    "C05": [("quantise", 800)],
+    "C05": [("quantise", 800), ("history", 150)],
     "C06": [("qnl", 700), ("pairings", 300), ("util", 120)],
     "C07": [("normalise", 900), ("concat_repeat", 300)],
     "C08": [("split", 800), ("concat_repeat", 300)],
